@@ -167,6 +167,12 @@ enum TermVal {
     Unusable(&'static str),
 }
 
+/// a name defined exactly wins over a prefix + unit or plural reading of the same letters (C07), also
+/// when what it defines is a substance: such a string is no unit name
+pub fn names_a_substance(ctx: &Context, name: &str) -> bool {
+    ctx.registry.substances.contains_key(name) && !ctx.registry.units.contains_key(name) && !ctx.registry.base_units.contains(name)
+}
+
 fn term_value(ctx: &Context, t: &Term) -> TermVal {
     let mut v = match t.konst {
         Some((n, d)) => Q::new(n.into(), d.into()),
@@ -177,6 +183,9 @@ fn term_value(ctx: &Context, t: &Term) -> TermVal {
         for (u, k) in list {
             if unusable(u).is_some() {
                 return TermVal::Unusable("name not usable bare in a query");
+            }
+            if names_a_substance(ctx, u) {
+                return TermVal::Unusable("generated prefix/plural form is the exact name of a substance (`hg`: mercury, not a hectogram)");
             }
             let n = match ctx.lookup(u) {
                 Some(n) => n,
@@ -206,6 +215,9 @@ fn term_value(ctx: &Context, t: &Term) -> TermVal {
                 // k1 u + k2 v with v another unit of u's dimensionality
                 if unusable(other).is_some() {
                     return TermVal::Unusable("name not usable bare in a query");
+                }
+                if names_a_substance(ctx, other) {
+                    return TermVal::Unusable("generated prefix/plural form is the exact name of a substance (`hg`: mercury, not a hectogram)");
                 }
                 let n = match ctx.lookup(other) {
                     Some(n) => n,
